@@ -16,7 +16,25 @@ JOBS = [
 # NDSize: every size_t index, every rank the type invariant allows, aliasing operands
 JOBS += [j for j in ND_JOBS if 'rank=' not in j['name']]
 JOBS += [j for j in c10.JOBS if j['name'] in ('FormatVersion_index', 'FormatVersion_lt')]
-SPEC = dict(new_safety_failures_are_violations=True, contracts=['c07_leaf.h', 'nd.h', 'c10_version.h'], stubs=['std_algo.h'], units=UNITS, jobs=JOBS,
+from cxx2c import Tok, P, fire, match_close
+def string_from_cstr(ctx, toks):
+    """data[i] = EXPR;  with data a pointer to std::string and EXPR of type char*  ->  nstring_assign_cstr(&data[i], EXPR);   (std::string::operator=(const char*))"""
+    out = []; i = 0
+    while i < len(toks):
+        t = toks[i]
+        if t.k == 'id' and t.t in ctx.env and ctx.env[t.t] == ('nstring', True) and toks[i + 1].t == '[' and (not out or out[-1].t in (';', '{', '}')):
+            e = match_close(toks, i + 1)
+            if toks[e + 1].t == '=':
+                j = e + 2
+                while toks[j].t != ';': j += 1
+                out.extend([Tok('id', 'nstring_assign_cstr', t.ws), P('(', ''), P('&', '')] + toks[i:e + 1] + [P(',', '')] + toks[e + 2:j] + [P(')', '')])
+                i = j; fire(ctx, 'string-assign-cstr'); continue
+        out.append(t); i += 1
+    return out
+UNITS['string_writer_finish_elem'] = dict(file='backend/hdf5/h5x/H5Object.hpp', locator=r'void\s+finish\s*\(', classes=['nstring'], pre_rules=[string_from_cstr],
+    region=dict(start=r'data\[i\]\s*=', end=r';(?=\s*\}\s*\})', params=[('std::string *', 'data'), ('char **', 'buffer'), ('ndsize_t', 'i')]))
+JOBS.append(dict(name='string_writer_finish_elem', bodies=['string_writer_finish_elem'], enforce=['string_writer_finish_elem'], replace=[], includes=['c16_strings.h'], expect_kinds=['postcondition'], timeout=300))
+SPEC = dict(new_safety_failures_are_violations=True, contracts=['c07_leaf.h', 'nd.h', 'c10_version.h', 'c16_strings.h'], stubs=['std_algo.h'], include_order=['c07_leaf.h', 'nd.h', 'c10_version.h', 'std_algo.h'], units=UNITS, jobs=JOBS,
             trusted_base=c07.SPEC['trusted_base'] + ND_TRUST,
             assumptions=['type invariants only: enum parameters hold an enumerator, vectors have at most 2^20 elements, NDSize rank <= 32 with dims of exactly rank elements',
                          'sampled axis: interval and offset are grid constants (symbolic division does not terminate); the position is any double',
